@@ -71,6 +71,7 @@ def value_for(rng, target):
     if target == "i32": return rand_int(rng)
     if target == "str": return rand_text(rng)
     if target == "vi": return [rand_int(rng) for _ in range(rng.choice([0, 1, 3, 17]))]
+    if target in ("a4", "ca4"): return [rand_int(rng) for _ in range(rng.choice([0, 1, 3, 4, 4, 5, 6, 9, 40]))]
     if target == "vs": return [rand_text(rng) for _ in range(rng.choice([0, 1, 3]))]
     if target == "vvi": return [[rand_int(rng) for _ in range(rng.choice([0, 1, 3]))] for _ in range(rng.choice([0, 1, 3]))]
     if target == "msi": return {"k%d" % i: rand_int(rng) for i in range(rng.choice([0, 1, 3]))}
@@ -124,6 +125,10 @@ TARGETS = {"mp": ["i32", "str", "vi", "vs", "vvi", "msi", "outer", "vouter", "ro
            "json": ["i32", "str", "vi", "vs", "vvi", "msi", "outer", "vouter", "rows"],
            "xml": ["vi", "vs", "vvi", "msi", "outer", "vouter", "rows"],
            "csv": ["rows"]}
+
+
+# targets that exist for loading only (fixed-size arrays: size mismatch between document and target)
+LOAD_TARGETS = {a: list(t) + ([] if a == "csv" else ["a4", "ca4"]) for a, t in TARGETS.items()}
 
 
 def mutate(rng, bs):
